@@ -281,6 +281,10 @@ func normalizeOverlay(dir, goarch string, overlay map[string][]byte) (map[string
 					}
 					c := cands[obj]
 					if c == nil {
+						// a method of an instantiated generic type: the declaration belongs to its origin
+						c = cands[obj.Origin()]
+					}
+					if c == nil {
 						return true
 					}
 					// not a recursive call inside the callee itself
@@ -310,6 +314,19 @@ func normalizeOverlay(dir, goarch string, overlay map[string][]byte) (map[string
 				label := fmt.Sprintf("%s -> %s at %s", funcKey(tc.pkg.PkgPath, tc.decl), enclosingFuncName(p, f, target), shortPos(dir, p.Fset, target.Pos()))
 				callee, err := inline.AnalyzeCallee(func(string, ...any) {}, tc.pkg.Fset, tc.pkg.Types, tc.pkg.TypesInfo, tc.decl, calleeContent)
 				if err != nil {
+					// the inliner does not handle type parameters: a method of a generic type whose body is a
+					// single returned expression over its receiver's fields and its parameters is substituted
+					// textually (accessors such as `func (q *queue[T]) full() bool { return q.count == len(q.buf) }`)
+					if nc, serr := substituteExprBody(p.Fset, tc.pkg.Fset, tc.pkg.TypesInfo, content, calleeContent, target, tc.decl); serr == nil {
+						cur[fname] = nc
+						doneFile[fname] = true
+						progressed = true
+						changed = true
+						rep.Inlined = append(rep.Inlined, label+" (expression substituted)")
+						continue
+					} else {
+						err = fmt.Errorf("%v; %v", err, serr)
+					}
 					failed[site] = true
 					rep.Skipped = append(rep.Skipped, label+": "+err.Error())
 					continue
@@ -350,6 +367,16 @@ func normalizeOverlay(dir, goarch string, overlay map[string][]byte) (map[string
 			for _, pp := range pkgs {
 				for _, o := range pp.TypesInfo.Uses {
 					used[o] = true
+					// a method of an instantiated generic type is a distinct object: mark its origin as well
+					if f, ok := o.(*types.Func); ok {
+						used[f.Origin()] = true
+					}
+				}
+				for _, sel := range pp.TypesInfo.Selections {
+					if f, ok := sel.Obj().(*types.Func); ok {
+						used[f] = true
+						used[f.Origin()] = true
+					}
 				}
 			}
 			for _, f := range p.Syntax {
@@ -949,4 +976,161 @@ func looseShape(t types.Type, qual types.Qualifier) string {
 		parts = append(parts, types.TypeString(f.Type(), qual))
 	}
 	return "struct{" + strings.Join(parts, "; ") + "}"
+}
+
+// substituteExprBody replaces the call `X.m(args)` by the callee's single returned expression with the
+// receiver name replaced by X and the parameter names by the arguments. It applies only when that is
+// obviously meaning-preserving: the body is one `return expr`, X and the arguments are side-effect-free
+// paths (identifiers, selectors, literals), the receiver occurs only as the base of a selector, every
+// parameter occurs at most once, and the expression contains no function literal.
+func substituteExprBody(callFset, declFset *token.FileSet, declInfo *types.Info, content, declContent []byte, call *ast.CallExpr, decl *ast.FuncDecl) ([]byte, error) {
+	if decl.Body == nil || len(decl.Body.List) != 1 {
+		return nil, fmt.Errorf("body is not a single statement")
+	}
+	ret, ok := decl.Body.List[0].(*ast.ReturnStmt)
+	if !ok || len(ret.Results) != 1 {
+		return nil, fmt.Errorf("body is not a single `return expr`")
+	}
+	sel, ok := call.Fun.(*ast.SelectorExpr)
+	if !ok || decl.Recv == nil || len(decl.Recv.List) != 1 {
+		return nil, fmt.Errorf("not a method call")
+	}
+	var simple func(e ast.Expr) bool
+	simple = func(e ast.Expr) bool {
+		switch x := e.(type) {
+		case *ast.Ident, *ast.BasicLit:
+			return true
+		case *ast.SelectorExpr:
+			return simple(x.X)
+		case *ast.ParenExpr:
+			return simple(x.X)
+		case *ast.StarExpr:
+			return simple(x.X)
+		case *ast.UnaryExpr:
+			return x.Op == token.AND && simple(x.X)
+		}
+		return false
+	}
+	if !simple(sel.X) {
+		return nil, fmt.Errorf("receiver expression is not a plain path")
+	}
+	text := func(fset *token.FileSet, src []byte, n ast.Node) string {
+		return string(src[fset.Position(n.Pos()).Offset:fset.Position(n.End()).Offset])
+	}
+	repl := map[string]string{}
+	recvName := ""
+	if len(decl.Recv.List[0].Names) == 1 {
+		recvName = decl.Recv.List[0].Names[0].Name
+		rx := sel.X
+		for {
+			if u, ok := rx.(*ast.UnaryExpr); ok && u.Op == token.AND {
+				rx = u.X
+				continue
+			}
+			if pe, ok := rx.(*ast.ParenExpr); ok {
+				rx = pe.X
+				continue
+			}
+			break
+		}
+		repl[recvName] = text(callFset, content, rx)
+		if _, isIdent := rx.(*ast.Ident); !isIdent {
+			if _, isSel := rx.(*ast.SelectorExpr); !isSel {
+				repl[recvName] = "(" + repl[recvName] + ")"
+			}
+		}
+	}
+	var params []string
+	if decl.Type.Params != nil {
+		for _, f := range decl.Type.Params.List {
+			for _, n := range f.Names {
+				params = append(params, n.Name)
+			}
+		}
+	}
+	if len(params) != len(call.Args) || call.Ellipsis.IsValid() {
+		return nil, fmt.Errorf("argument count")
+	}
+	for i, a := range call.Args {
+		if !simple(a) {
+			return nil, fmt.Errorf("argument %d is not a plain path", i)
+		}
+		repl[params[i]] = "(" + text(callFset, content, a) + ")"
+	}
+	// walk the returned expression
+	type edit struct {
+		from, to int
+		with     string
+	}
+	var edits []edit
+	uses := map[string]int{}
+	var bad error
+	var stack []ast.Node
+	ast.Inspect(ret.Results[0], func(n ast.Node) bool {
+		if n == nil {
+			stack = stack[:len(stack)-1]
+			return true
+		}
+		defer func() { stack = append(stack, n) }()
+		switch x := n.(type) {
+		case *ast.FuncLit:
+			bad = fmt.Errorf("function literal in the body")
+			return true
+		case *ast.Ident:
+			var parent ast.Node
+			if len(stack) > 0 {
+				parent = stack[len(stack)-1]
+			}
+			if ps, ok := parent.(*ast.SelectorExpr); ok && ps.Sel == x {
+				return true // a field or method name
+			}
+			if kv, ok := parent.(*ast.KeyValueExpr); ok && kv.Key == x {
+				return true
+			}
+			with, isRepl := repl[x.Name]
+			obj := declInfo.Uses[x]
+			if isRepl && obj != nil && obj.Parent() != nil && obj.Parent() != obj.Pkg().Scope() && obj.Parent() != types.Universe {
+				if x.Name == recvName {
+					if ps, ok := parent.(*ast.SelectorExpr); !ok || ps.X != ast.Expr(x) {
+						bad = fmt.Errorf("the receiver is used other than as a selector base")
+						return true
+					}
+				} else {
+					uses[x.Name]++
+					if uses[x.Name] > 1 {
+						bad = fmt.Errorf("parameter %s is used more than once", x.Name)
+					}
+				}
+				edits = append(edits, edit{declFset.Position(x.Pos()).Offset, declFset.Position(x.End()).Offset, with})
+				return true
+			}
+			if obj == nil {
+				return true
+			}
+			if obj.Parent() == types.Universe || (obj.Pkg() != nil && obj.Parent() == obj.Pkg().Scope()) {
+				return true
+			}
+			if _, isTN := obj.(*types.TypeName); isTN {
+				bad = fmt.Errorf("the body mentions the type parameter or a local type %s", x.Name)
+				return true
+			}
+			bad = fmt.Errorf("the body mentions the local name %s", x.Name)
+		}
+		return true
+	})
+	if bad != nil {
+		return nil, bad
+	}
+	base := declFset.Position(ret.Results[0].Pos()).Offset
+	end := declFset.Position(ret.Results[0].End()).Offset
+	body := string(declContent[base:end])
+	sort.Slice(edits, func(i, j int) bool { return edits[i].from > edits[j].from })
+	for _, e := range edits {
+		body = body[:e.from-base] + e.with + body[e.to-base:]
+	}
+	cs, ce := callFset.Position(call.Pos()).Offset, callFset.Position(call.End()).Offset
+	out := append([]byte{}, content[:cs]...)
+	out = append(out, []byte("("+body+")")...)
+	out = append(out, content[ce:]...)
+	return out, nil
 }
